@@ -18,3 +18,39 @@ Definition run_helper_hdr (pt padding count : N) (buf : nat * N) : list kv :=
 
 Definition run_helper_chk (padding : N) : list kv :=
   [("w", obs_wres (fun _ => OS "unit") (check_padding padding))].
+
+(* the public header readers of utils::parser, each called on an arbitrary slice (longer than, equal to or
+   shorter than the packet its header announces) *)
+Definition run_helper_phdr (d : bytes) : list kv :=
+  [("w", OL [obs_pres ON (parse_version d);
+             obs_pres (fun b : bool => OS (if b then "true" else "false")) (parse_padding_bit d);
+             obs_pres obs_optN (parse_padding d);
+             obs_pres ON (parse_count d);
+             obs_pres ON (parse_packet_type d);
+             obs_pres OI (parse_length d);
+             obs_pres ON (parse_ssrc d)])].
+
+(* write_into_unchecked called directly on a buffer [extra] bytes longer than the calculated size (the
+   caller's scratch or MTU-sized buffer), for accepted configurations *)
+Definition run_build_unchecked (m : member) (extra : nat) (fill : N) : list kv :=
+  match m_calc m with
+  | Ok n => [("uw", obs_unchecked (m_write_unchecked m (repeat fill (n + extra))))]
+  | Err FciWrongFeedbackPacketType =>
+      (* the one invalid configuration whose unchecked write is documented to return (0) rather than panic:
+         a feedback builder holding an FCI of the other feedback kind *)
+      match m with
+      | MFb _ => [("uw", obs_unchecked (m_write_unchecked m (repeat fill (16 + extra))))]
+      | _ => []
+      end
+  | _ => []
+  end.
+
+(* an FCI builder used as a writer in its own right (NackBuilder, FirBuilder, SliBuilder, RpsiBuilder and
+   PliBuilder implement RtcpPacketWriter publicly): RtcpPacketWriterExt::write_into over its own
+   calculate_size / write_into_unchecked *)
+Definition fci_write_into (f : fci_cfg) (buf : bytes) : wres nat * bytes :=
+  write_into_gen (fci_calc f) (fci_write f) buf.
+
+Definition run_build_fci (f : fci_cfg) (bufs : list (nat * N)) : list kv :=
+  [("size", obs_wres OI (fci_calc f));
+   ("writes", OL (map (fun b => obs_write (fci_write_into f (mk_buf b))) bufs))].
